@@ -164,6 +164,14 @@ class LrParser:
                     ret_val = param.f(*f_args)
                 else:
                     ret_val = None
+                if len(stack) > 1:
+                    # The start symbol is used inside a production and
+                    # this was such an inner instance: proceed as reduce.
+                    state = stack[-1]
+                    stack.append(param.name)
+                    stack.append(self.goto_table[(state, param.name)])
+                    r_data_stack.append(ret_val)
+                    continue
                 # Break out!
                 stack.append(param.name)
                 stack.append(0)
